@@ -805,6 +805,8 @@ Proof.
   rewrite xsum_cons. unfold lin_Cn, lin_L, lin_K in *. rewrite !lin_sum_cons, IH. unfold lin_H. field.
 Qed.
 
+Local Opaque Qred.
+
 Lemma lin_solve_value c Tref m h Tg P T' :
   lin_solve c Tref m h Tg P = Ok T' ->
   ~ lin_Cn c m == 0 /\
@@ -812,7 +814,7 @@ Lemma lin_solve_value c Tref m h Tg P T' :
 Proof.
   unfold lin_solve, iter_T_at_HP, refresh. simpl Nat.eqb. cbv iota.
   destruct (qzerob (lin_Cn c m)) eqn:Z; [discriminate|]. cbn [bind fst]. intros E; injection E as <-.
-  apply qzerob_false in Z. split; [exact Z|]. rewrite xsum_lin. reflexivity.
+  apply qzerob_false in Z. split; [exact Z|]. etransitivity; [apply Qred_correct|]. rewrite xsum_lin. reflexivity.
 Qed.
 
 Lemma vdot_nil_l v : vdot [] v == 0.
@@ -841,7 +843,7 @@ Proof.
     rewrite xsum_lin, ET. field. exact Z.
   - intros m x Tg P T' S. unfold lin_solveS in S.
     destruct (qzerob (lin_Cn c m)) eqn:Z; [discriminate|]. injection S as <-. apply qzerob_false in Z.
-    rewrite xsum_linS. field. exact Z.
+    rewrite xsum_linS. rewrite (Qred_correct (Tref + 256 * (x - lin_S0 c m + lin_K c m * (P - Pref c) / 65536) / lin_Cn c m)). field. exact Z.
 Qed.
 
 Lemma lin_solve_fix c Tref :
@@ -850,7 +852,7 @@ Lemma lin_solve_fix c Tref :
 Proof.
   intros m x T P Z X. unfold lin_solve, iter_T_at_HP, refresh. simpl Nat.eqb. cbv iota.
   pose proof Z as Z'. apply qzerob_false in Z'. rewrite Z'. cbn [bind fst].
-  eexists. split; [reflexivity|]. rewrite X. field. exact Z.
+  eexists. split; [reflexivity|]. etransitivity; [apply Qred_correct|]. rewrite X. field. exact Z.
 Qed.
 
 (* ------------------------------------------------------------------ totality: when the solver always answers, mixing succeeds *)
@@ -933,6 +935,68 @@ Lemma mix_energy_stub_lemma c hf Tref st r others Q0 st' ins s' :
   ~ total s' == 0 ->
   getH (lin_oracles c hf Tref) s' == qsum (map (getH (lin_oracles c hf Tref)) ins) + (Q0 + heats others).
 Proof. intros W. apply mix_energy_lemma; auto. apply lin_contracts. Qed.
+
+(* ------------------------------------------------------------------ separating a phase view out *)
+Lemma separate_view_length O st r j p st' : separate_view O st r j p = Ok st' -> length st' = length st.
+Proof.
+  unfold separate_view, bind. intros H. dres H. dres H. dres H. injection H as <-.
+  destruct (sep_frame_lemma _ _ _ _ _ E1) as [L _]. rewrite app_length in L. simpl in L.
+  rewrite firstn_length. lia.
+Qed.
+
+Lemma sget_app_l st x i s : sget st i = Ok s -> sget (st ++ [x]) i = Ok s.
+Proof.
+  intros H. pose proof (sget_lt _ _ _ H) as L. apply sget_Some in H. unfold sget.
+  rewrite nth_error_app1 by exact L. now rewrite H.
+Qed.
+Lemma sget_app_last st x : sget (st ++ [x]) (length st) = Ok x.
+Proof. unfold sget. rewrite nth_error_app2 by lia. now rewrite Nat.sub_diag. Qed.
+
+Lemma sget_firstn st n i s : (i < n)%nat -> sget st i = Ok s -> sget (firstn n st) i = Ok s.
+Proof.
+  intros L H. apply sget_Some in H. unfold sget.
+  assert (E : nth_error (firstn n st) i = nth_error st i).
+  { revert st i L H. induction n as [|n IH]; intros [|a st] [|i] L H; simpl in *; try lia; try discriminate; auto.
+    apply IH; [lia|exact H]. }
+  now rewrite E, H.
+Qed.
+
+(* the receiver is left with H(self before) - H(view before), also when the view shares its flows with the receiver *)
+Lemma sep_view_energy_lemma O st r j p st' sr sj v s' :
+  contracts O ->
+  separate_view O st r j p = Ok st' ->
+  sget st r = Ok sr -> sget st j = Ok sj -> view sj p = Ok v -> sget st' r = Ok s' ->
+  ~ total s' == 0 ->
+  getH O s' == getH O sr - getH O v.
+Proof.
+  intros C H Sr Sj V Sr' Hn. unfold separate_view in H. rewrite Sj in H. cbn [bind] in H. rewrite V in H. cbn [bind] in H.
+  unfold bind in H. dres H. rename a into st2. injection H as <-.
+  pose proof (sget_lt _ _ _ Sr) as Lr.
+  assert (Ne : r <> length st) by lia.
+  destruct (sep_frame_lemma _ _ _ _ _ E) as [L2 _]. rewrite app_length in L2. simpl in L2.
+  assert (S2 : sget st2 r = Ok s').
+  { unfold sget in *. destruct (nth_error (firstn (length st) st2) r) as [x|] eqn:N; [|discriminate].
+    injection Sr' as <-.
+    assert (E2 : nth_error (firstn (length st) st2) r = nth_error st2 r).
+    { clear -Lr. revert st2 r Lr. generalize (length st). induction n as [|n IH]; intros [|a l] [|i] L; simpl; try lia; auto.
+      apply IH. lia. }
+    now rewrite <- E2, N. }
+  apply (sep_energy_lemma O (st ++ [v]) r (length st) st2 sr v s' C E Ne (sget_app_l _ _ _ _ Sr) (sget_app_last _ _) S2 Hn).
+Qed.
+
+Lemma Forall_firstn_keep {A} (P : A -> Prop) n l : Forall P l -> Forall P (firstn n l).
+Proof.
+  revert l. induction n as [|n IH]; intros [|a l] F; simpl; try constructor.
+  - inversion F; auto.
+  - inversion F; subst. now apply IH.
+Qed.
+
+Lemma mix_views_length O st r vs others Q0 st' : mix_views O st r vs others Q0 = Ok st' -> length st' = length st.
+Proof.
+  unfold mix_views, bind. intros H. dres H. dres H. injection H as <-.
+  destruct (mix_frame_lemma _ _ _ _ _ _ E0) as [L _]. rewrite app_length in L.
+  rewrite firstn_length. lia.
+Qed.
 
 (* ------------------------------------------------------------------ the property memo is transparent, for every history *)
 Definition memo_wf (O : oracles) (c : cell) : Prop :=
@@ -1083,7 +1147,7 @@ Proof.
   intros F H. unfold hstep in H. unfold tstep.
   assert (AT : forall h, match idx_of hs h with Some i => nth_error (map cs cells) i = option_map cs (nth_error cells i) | None => True end)
     by (intros h; destruct (idx_of hs h); auto; apply nth_error_map).
-  destruct op as [h|h name flow|h T|h P|h p|h which x|h which|h others Q0|h oh];
+  destruct op as [h|h name flow|h T|h P|h p|h which x|h which|h others Q0|h oh|h p1 p2 k|h p name flow|h oh p|h vs others Q0];
     (destruct (idx_of hs h) as [i|] eqn:I; [|injection H as <- <- <-; auto]);
     rewrite nth_error_map_cs; (destruct (nth_error cells i) as [c|] eqn:N; cbn [option_map]; [|injection H as <- <- <-; auto]).
   - injection H as <- <- <-. auto.
@@ -1117,6 +1181,34 @@ Proof.
       * split; [now apply set_streams_wf|]. rewrite set_streams_cs; [reflexivity|lia].
       * destruct (read_at_props O cells i F) as [F1 L1]. destruct (read_at_props O _ j F1) as [F2 L2].
         split; [now apply set_streams_wf|]. rewrite set_streams_cs; [reflexivity|lia].
+    + injection H as <- <- <-. auto.
+  - injection H as <- <- <-. split; [apply Forall_upd; auto; apply memo_wf_with_s; eapply Forall_nth_error; eauto|].
+    now rewrite map_cs_upd.
+  - destruct (view (cs c) p) as [v|e]; injection H as <- <- <-; auto.
+  - destruct (idx_of hs oh) as [j|] eqn:J; [|injection H as <- <- <-; auto].
+    destruct (separate_view O (map cs cells) i j p) as [st'|e] eqn:SP.
+    + injection H as <- <- <-.
+      destruct (read_at_props O cells i F) as [F1 L1].
+      split; [now apply set_streams_wf|]. rewrite set_streams_cs; [reflexivity|].
+      rewrite L1. symmetry. pose proof (separate_view_length _ _ _ _ _ _ SP) as L. now rewrite map_length in L.
+    + injection H as <- <- <-. auto.
+  - rewrite map_length.
+    destruct (mix_views O (map cs cells) i _ (tr_inlets hs others) Q0) as [st'|e] eqn:MV.
+    + injection H as <- <- <-.
+      pose proof (mix_views_length _ _ _ _ _ _ _ MV) as L. rewrite map_length in L.
+      match goal with |- context [firstn (length cells) ?X] => set (X0 := X) end.
+      assert (P0 : Forall (memo_wf O) X0 /\ (length cells <= length X0)%nat).
+      { unfold X0. destruct (views (map cs cells) _) as [vstreams|]; [|split; [exact F|lia]].
+        assert (Fe : Forall (memo_wf O) (cells ++ map (fun s => mkCell s None) vstreams)).
+        { apply Forall_app. split; [exact F|]. apply Forall_forall. intros c0 Ic. apply in_map_iff in Ic.
+          destruct Ic as (x & <- & _). exact Logic.I. }
+        destruct (mix_reads_props O _ i (map IStream (seq (length cells) (length vstreams)) ++ tr_inlets hs others) Q0 Fe) as [F1 L1].
+        split; [exact F1|]. rewrite L1, app_length. lia. }
+      destruct P0 as [F0 L0].
+      assert (Ff : Forall (memo_wf O) (firstn (length cells) X0)).
+      { now apply Forall_firstn_keep. }
+      split; [now apply set_streams_wf|]. rewrite set_streams_cs; [reflexivity|].
+      rewrite firstn_length. lia.
     + injection H as <- <- <-. auto.
 Qed.
 
@@ -1185,4 +1277,46 @@ Lemma ideal_S_homog lnf models p v k T P :
   ideal_S lnf models p (vdivs v k) T P * k == ideal_S lnf models p v T P.
 Proof.
   intros Hln Hk Ht. unfold ideal_S. apply ideal_terms_homog; auto. now apply qsum_vdivs.
+Qed.
+
+(* ------------------------------------------------------------------ mixing with phase views among the inlets *)
+Lemma view_wfs s p v : wfs s -> view s p = Ok v -> wfs v.
+Proof.
+  intros W H. unfold view in H. destruct (multi s).
+  - match type of H with context [find ?f ?l] => destruct (find f l) as [pv|] end; [|discriminate]. injection H as <-.
+    split; simpl; [reflexivity|]. constructor; [intros []|constructor].
+  - destruct (lowerp p =? lowerp (phase1 s))%nat; [|discriminate]. now injection H as <-.
+Qed.
+
+Lemma views_wfs st vs vstreams : Forall wfs st -> views st vs = Ok vstreams -> Forall wfs vstreams.
+Proof.
+  intros W. revert vstreams. induction vs as [|[j p] t IH]; intros vstreams H; simpl in H.
+  - injection H as <-. constructor.
+  - unfold bind in H. dres H. dres H. dres H. injection H as <-.
+    constructor; [|now apply IH]. eapply view_wfs; [|exact E0]. eapply sget_wfs; eauto.
+Qed.
+
+Lemma nth_error_firstn_lt {A} (l : list A) n i : (i < n)%nat -> nth_error (firstn n l) i = nth_error l i.
+Proof.
+  revert l i. induction n as [|n IH]; intros [|a l] [|i] L; simpl; try lia; auto. apply IH. lia.
+Qed.
+
+Lemma mix_views_energy_lemma O st r vs others Q0 st' vstreams ins s' :
+  contracts O -> Forall wfs st ->
+  views st vs = Ok vstreams ->
+  mix_views O st r vs others Q0 = Ok st' ->
+  let ext := st ++ vstreams in
+  let ot := map IStream (seq (length st) (length vstreams)) ++ others in
+  streams_of ext ot <> [] ->
+  sget_all ext (streams_of ext ot) = Ok ins ->
+  sget st' r = Ok s' -> (r < length st)%nat ->
+  ~ total s' == 0 ->
+  getH O s' == qsum (map (getH O) ins) + (Q0 + heats ot).
+Proof.
+  intros C W V H ext ot NE SA Sr Lr Hn. unfold mix_views in H. rewrite V in H. cbn [bind] in H.
+  unfold bind in H. dres H. rename a into st2. injection H as <-.
+  assert (S2 : sget st2 r = Ok s').
+  { unfold sget in *. rewrite nth_error_firstn_lt in Sr by exact Lr. exact Sr. }
+  apply (mix_energy_lemma O ext r ot Q0 st2 ins s' C); auto.
+  apply Forall_app. split; [exact W|]. eapply views_wfs; eauto.
 Qed.
